@@ -766,6 +766,9 @@ func TestVerifC16(t *testing.T) {
 		r.Eval("setbytes-error-keeps-receiver")
 	}
 
+	// long-lived element objects (zz_verif_c16walk_test.go)
+	c16walks(r, rng)
+
 	// MultiSelect: masked selection over a table returns entry bits-1, or the fallback for bits=0
 	var widths []int
 	for w := 1; w <= 130; w++ {
